@@ -263,8 +263,21 @@ def run(tier, seed, replay=None):
             continue
         stats["pairs"] += 1
         stats["mutation_kinds"][kind.split(":")[0]] = stats["mutation_kinds"].get(kind.split(":")[0], 0) + 1
+        if kind == "copy":
+            stats["copies_seen"] = stats.get("copies_seen", 0) + 1
+        if kind == "copy" and stats["copies_seen"] % 3 == 0:
+            # one side carries a public attribute the other does not have at all: whichever way == decides, it decides the same both ways
+            try:
+                from statham.schema.elements.meta import ObjectMeta as _OMx
+                if isinstance(eb, _OMx):
+                    type.__setattr__(eb, "origin", "x")
+                else:
+                    eb.origin = "x"
+                kind = "extra-attribute:one side has a public attribute `origin`"
+            except BaseException:  # noqa
+                pass
         ab, ba = (ea == eb), (eb == ea)
-        if isinstance(ab, bool) and isinstance(ba, bool):
+        if isinstance(ab, bool) and isinstance(ba, bool) and not kind.startswith("extra-attribute"):       # (Elem.v has no foreign attributes)
             try:   # the model sees the trees as they are when == is evaluated (before any validation call)
                 cases.append("(%s, %s, %s, %s)" % (cq_elem(ea), cq_elem(eb), cq_bool(ab), cq_bool(ba)))
                 metas.append({"property": "C17", "doc_a": da, "doc_b": db, "mutation": kind})
